@@ -115,7 +115,7 @@ def gen_scenario(rng):
         sc["stale"] = "socket"  # something already sits at the socket path (left by a crashed earlier run)
     if rng.random() < 0.22:
         lines = [rng.choice(["num-running", "num-ended", "is-full", "Num-Running", "  is-locked  ", "num-cancelled"]) for _ in range(rng.randint(0, 3))]
-        sc["cli"] = {"lines": lines, "end": rng.choice(["exit", "eof", "EXIT"]), "at": rng.randint(0, len(order))}
+        sc["cli"] = {"lines": lines, "end": rng.choice(["exit", "eof", "EXIT", "Exit", "  exit ", "eXiT"]), "at": rng.randint(0, len(order))}
     if again:
         # the same server object is stopped and asked to serve again, once or twice; clients of an earlier period may
         # still be connected (then the earlier serving task is still pending) or long gone
@@ -321,7 +321,8 @@ class World:
             args = ["unix", self.path]
         text = "".join(ln + "\n" for ln in spec["lines"])
         if spec["end"] != "eof":
-            text += spec["end"] + "\n"
+            # the exit command in some spelling; whatever is typed after it must never reach the server
+            text += spec["end"] + "\nlock\nzzz-after-exit\n"
         exp = []
         for ln in spec["lines"]:
             key = ln.strip().lower()
@@ -480,9 +481,15 @@ class World:
         cli_task = None
         for i, act in enumerate(order + [("end",)]):
             if cli is not None and cli["at"] == i and not self.stopped:
+                before_cli = snapshot(self.pool)
                 rc, out, err, exp = await self.cli_client(cli)
                 self.note("cli", rc, repr(out[-300:]), repr(err[-200:]))
                 self.check_cli(rc, out, err, exp)
+                if cli["end"] != "eof":
+                    self.sit["C19.cli_exit_command." + ("lower" if cli["end"] == "exit" else "other_spelling")] += 1
+                    if "zzz-after-exit" in out or snapshot(self.pool) != before_cli:
+                        self.violate("C19.cli", f"the CLI client kept sending what was typed after the exit command {cli['end']!r} "
+                                                f"(pool {before_cli} -> {snapshot(self.pool)}; output tail {out[-160:]!r})")
                 cli = None
             kind = act[0]
             if not self.stopped and not srv.is_serving():
